@@ -31,6 +31,13 @@ func TestC14(t *testing.T) {
 	specEdits := corpusS3(n, "1", "auto", 1, &w.Alpha{SpecEdits: []string{"drop-canary", "canary-replicas=2"}})
 	specEdits.name = "S3-canary-spec-edits"
 	scs = append(scs, specEdits)
+	// a user command lands between the reads and the first write of an ExtendedDaemonSet reconcile: whatever that
+	// reconcile reports, a reconcile that reports success leaves the documented status behind
+	overtaken := corpusS2(n, "1", 1, &w.Alpha{MidCmds: []string{"pause-rolling-update", "freeze-rollout"}, PodDev: []string{"unready"}})
+	overtaken.name = "S2-commands-overtake-reconciles"
+	overtakenCanary := corpusS3([]string{"n1", "n2"}, "1", "auto", 1, &w.Alpha{MidCmds: []string{"canary-pause", "canary-validate"}})
+	overtakenCanary.name = "S3-commands-overtake-reconciles"
+	scs = append(scs, overtaken, overtakenCanary)
 	type sample struct {
 		sc *w.Scenario
 		s  *w.State
